@@ -24,8 +24,23 @@ ITEM = ("{% if e is map %}{% if e | length == 0 %}M0{% elif e.zz is defined %}mx
         "{% elif e is none %}N{% else %}{{ e }}{% endif %},")
 
 
+# a second concretisation of the two string elements: long enough (> 23 bytes) to be stored on the heap, a multi-byte character
+# near the end, differing in the last character only -- same classes, same order, another representation
+LONG_A, LONG_B = "a" * 24 + "\u00e9a", "a" * 24 + "\u00e9b"
+_SH = [SHOWN]
+
+
 def shown(ids):
-    return "".join(SHOWN.get(i, i) + "," for i in ids)
+    return "".join(_SH[0].get(i, i) + "," for i in ids)
+
+
+def _twice(vecs, pending):
+    """every vector, then (filled while the first pass runs) those that hold a string element, marked for the long concretisation"""
+    for v in vecs:
+        yield v
+    for v in pending:
+        yield v
+    _SH[0] = SHOWN
 
 
 def loop(expr):
@@ -39,12 +54,20 @@ def run(tier):
         f.write(open(vp.SPEC + "/MC_Builtins.cfg").read().replace("MaxLen = 3", "MaxLen = %d" % maxlen).replace("INVARIANT InvObs\n", ""))
     r = vp.tlc("MC_Builtins", "MC_Builtins_run", env={"OBS": ""}, workers=8, timeout=3000, name="c16")
     C.add_tlc(r, "MC_Builtins MaxLen=%d" % maxlen)
-    C.cov["rule"] = ("all arrays of length <= %d over 29 abstract elements x 9 filter families; plus random long arrays checked by contract; "
+    C.cov["rule"] = ("all arrays of length <= %d over 29 abstract elements x 9 filter families (those holding a string element a second time with strings of 26 characters / 27 bytes, stored on the heap); plus random long arrays checked by contract; "
                      "non-trivial = distinct (array, filter) with a specified outcome and a non-empty array" % maxlen)
     jobs, meta = [], []
-    for v in r.tags["VEC"]:
+    pending_long = []
+    for v in _twice(r.tags["VEC"], pending_long):
         xs = v["xs"]
-        ctx = {"xs": [CONC[i] for i in xs]}
+        if v.get("_long"):
+            ctx = {"xs": [{"sa": LONG_A, "sb": LONG_B}.get(i, CONC[i]) for i in xs]}
+            _SH[0] = dict(SHOWN, sa=LONG_A, sb=LONG_B)
+        else:
+            ctx = {"xs": [CONC[i] for i in xs]}
+            _SH[0] = SHOWN
+            if any(i in ("sa", "sb") for i in xs):
+                pending_long.append(dict(v, _long=True))
         tests = []
         for name, res, expr in (("sort", v["sort"], "xs | sort"), ("sort(attribute)", v["sortk"], "xs | sort(attribute='k')")):
             if res["r"] == "ok-nn":
